@@ -37,9 +37,16 @@ def func_cases(tier):
 def seg_cases(tier):
     cases = []
     variants = [{}, {"psi_spacing_separatrix_multiplier": 0.5}, {"psinorm_core": 0.85, "psinorm_sol": 1.15, "psinorm_pf": 0.9}, {"psi_core": 0.95, "psinorm_core": 0.5},
-                {"psi_spacing_separatrix_multiplier": 1.7}]
+                {"psi_spacing_separatrix_multiplier": 1.7},
+                # each limit given explicitly as a flux value, on its own: it overrides its own psinorm_* and no other limit
+                # (seeded change C09_psi_sol_overrides_inner)
+                {"psi_sol": 0.715}, {"psi_sol_inner": 0.72}, {"psi_pf_lower": 0.75}, {"psi_pf_upper": 0.752}, {"psi_sol": 0.71, "psinorm_sol_inner": 1.04}]
     for topo, (nx, ny) in NS.items():
         for o in variants:
+            if "psi_sol_inner" in o and topo not in ("CDN", "LDN", "UDN"):
+                continue
+            if topo == "LDN":       # (the ldn family has psi < 0, increasing outwards)
+                o = {k: (-v if k.startswith("psi_") and k != "psi_spacing_separatrix_multiplier" and k != "psi_core" else v) for k, v in o.items()}
             oo = dict(psinorm_core=0.9, psinorm_sol=1.1, psinorm_pf=0.95)
             oo.update(o)
             if topo in ("CDN", "LDN", "UDN"):
